@@ -19,5 +19,8 @@ func controlsC19() []Control {
 		{Name: "timer armed for the index of another id", Expect: "R7", Mutate: replaceIn("(*playerRunner).UpdateTableState", "pr.actor.GetTable().GetGamePlayerIndex(pr.playerID)", "pr.actor.GetTable().GetGamePlayerIndex(pr.curGameID)", 0)},
 		{Name: "timer armed although the player is not in the hand", Expect: "R7", Mutate: replaceIn("(*playerRunner).UpdateTableState", "if gamePlayerIdx == -1 {", "if gamePlayerIdx == -2 {", 0)},
 		{Name: "timer armed when nothing is asked", Expect: "R7", Mutate: replaceIn("(*playerRunner).UpdateTableState", "len(player.AllowedActions) > 0", "len(player.AllowedActions) >= 0", 0)},
+		{Name: "actor hands views to its runner under the read lock", Expect: "R8", Mutate: replaceIn("(*actor).UpdateTableState", "\ta.mu.Lock()\n\tdefer a.mu.Unlock()\n", "\ta.mu.RLock()\n\tdefer a.mu.RUnlock()\n", 0)},
+		{Name: "actor releases its mutex before calling the runner", Expect: "R8", Mutate: replaceIn("(*actor).UpdateTableState", "\ta.mu.Lock()\n\tdefer a.mu.Unlock()\n", "\ta.mu.Lock()\n\ta.mu.Unlock()\n", 0)},
+		{Name: "player runner filters stale views only within the hand it already knows", Expect: "R7", Mutate: replaceIn("(*playerRunner).UpdateTableState", "\t\t\tpr.curGameID = gs.GameID\n\t\t}\n", "\t\t\tpr.curGameID = gs.GameID\n\t\t} else", 0)},
 	}
 }
